@@ -393,6 +393,11 @@ func executeInBubble(spec *RunSpec, res *RunResult) {
 		r, wr := w.NewPipe()
 		wr.closed, wr.p.wClosed = true, true
 		stdin = r
+	case strings.HasPrefix(spec.Stdin, "datasilent:"):
+		// some input, then silence: the writer stays open
+		r, wr := w.NewPipe()
+		wr.p.buf = append(wr.p.buf, spec.Stdin[len("datasilent:"):]...)
+		stdin, stdinW = r, wr
 	case strings.HasPrefix(spec.Stdin, "data:"):
 		r, wr := w.NewPipe()
 		wr.p.buf = append(wr.p.buf, spec.Stdin[len("data:"):]...)
